@@ -8,7 +8,6 @@
 
 use serde_json::{Map, Value, json};
 use vp_common::Rng;
-use vp_common::report::hex;
 
 #[derive(Clone, Copy, Debug)]
 pub struct Cfg {
@@ -31,9 +30,24 @@ impl Cfg {
         let per_mille = ((self.scale * 100_000.0).ceil() as u64).clamp(20, 1000);
         rng.chance(per_mille, 1000)
     }
+    /// Number of random members of a value pool: n at scale >= 1, fewer (at least 2) below.
+    pub fn few(&self, n: usize) -> usize {
+        if self.scale >= 1.0 { n } else { ((n as f64 * self.scale * 100.0).ceil() as usize).clamp(2, n) }
+    }
     pub fn cap(&self, n: usize) -> usize {
         if self.scale >= 1.0 { n } else { ((n as f64 * self.scale).ceil() as usize).max(40).min(n) }
     }
+}
+
+/// Lower-case hex without going through the formatting machinery (this runs under Miri too).
+pub fn hex(bytes: &[u8]) -> String {
+    const DIGITS: &[u8; 16] = b"0123456789abcdef";
+    let mut s = String::with_capacity(bytes.len() * 2);
+    for b in bytes {
+        s.push(DIGITS[(b >> 4) as usize] as char);
+        s.push(DIGITS[(b & 15) as usize] as char);
+    }
+    s
 }
 
 pub const PACKETS: &[&str] = &[
@@ -145,7 +159,7 @@ fn general_strings(rng: &mut Rng, cfg: &Cfg, max_units: usize, typical: &str) ->
     push(rep('é', m));
     push(rep('€', m));
     push(rep('😀', m / 2));
-    for _ in 0..if cfg.thorough { 16 } else { 6 } {
+    for _ in 0..cfg.few(if cfg.thorough { 16 } else { 6 }) {
         push(random_string(rng, GENERAL_ALPHABET, max_units));
     }
     out.into_iter().map(Value::String).collect()
@@ -168,7 +182,7 @@ fn identifiers(rng: &mut Rng, cfg: &Cfg) -> Vec<Value> {
         }
     }
     out.push(ident_of_len(cfg.cap(32767)));
-    for _ in 0..if cfg.thorough { 12 } else { 4 } {
+    for _ in 0..cfg.few(if cfg.thorough { 12 } else { 4 }) {
         let ns_len = 1 + rng.usize_below(8);
         let path_len = 1 + rng.usize_below(30);
         let mut s = rng.string_from(IDENT_NS, ns_len);
@@ -195,7 +209,7 @@ fn plain_texts(rng: &mut Rng, cfg: &Cfg) -> Vec<String> {
     // the NBT string limit: 65 535 bytes
     out.push(rep('x', cfg.cap(65535)));
     out.push(rep('€', cfg.cap(65535) / 3));
-    for _ in 0..if cfg.thorough { 16 } else { 6 } {
+    for _ in 0..cfg.few(if cfg.thorough { 16 } else { 6 }) {
         let s = random_string(rng, TEXT_ALPHABET, 48);
         if !s.starts_with('{') {
             out.push(s);
@@ -277,7 +291,7 @@ fn texts(rng: &mut Rng, cfg: &Cfg) -> Vec<Value> {
     out.push(json!({"json": {"text": "x", "with": []}}));
     out.push(json!({"json": {"text": rep('x', cfg.cap(60000))}}));
     out.push(json!({"json": {"text": rep('€', cfg.cap(60000) / 3), "extra": [{"text": rep('é', 300)}]}}));
-    for _ in 0..if cfg.thorough { 60 } else { 20 } {
+    for _ in 0..cfg.few(if cfg.thorough { 60 } else { 20 }) {
         out.push(json!({"json": random_component(rng, 0)}));
     }
     out
@@ -327,7 +341,7 @@ fn uuids(rng: &mut Rng) -> Vec<Value> {
     for _ in 0..4 {
         v.push(((rng.u64() as u128) << 64) | rng.u64() as u128);
     }
-    v.into_iter().map(|x| json!(format!("{x:032x}"))).collect()
+    v.into_iter().map(|x| json!(hex(&x.to_be_bytes()))).collect()
 }
 
 fn i8s() -> Vec<Value> {
@@ -379,6 +393,32 @@ fn ordinals(first: i32, lo: i32, hi: i32) -> Vec<Value> {
 // per packet: (field, pool) in protocol order
 
 pub type Spec = Vec<(&'static str, Vec<Value>)>;
+
+/// Unit structs in the crate: one value, id and empty body only.
+pub fn is_placeholder(packet: &str) -> bool {
+    matches!(
+        packet,
+        "StatusRequest"
+            | "SetCompression"
+            | "LoginPluginRequest"
+            | "LoginPluginResponse"
+            | "LoginAcknowledged"
+            | "ConfPluginMessageOut"
+            | "FinishConfiguration"
+            | "ResetChat"
+            | "RegistryData"
+            | "RemoveResourcePack"
+            | "FeatureFlags"
+            | "UpdateTags"
+            | "KnownPacksOut"
+            | "CustomReportDetails"
+            | "ServerLinks"
+            | "ConfCookieResponse"
+            | "ConfPluginMessageIn"
+            | "AckFinishConfiguration"
+            | "KnownPacksIn"
+    )
+}
 
 pub fn spec_for(packet: &str, rng: &mut Rng, cfg: &Cfg) -> Spec {
     match packet {
@@ -474,7 +514,8 @@ pub fn sweep_cases(packet: &str, spec: &Spec, cfg: &Cfg, rng: &mut Rng, mut f: i
 fn heavy(v: &Value) -> bool {
     match v {
         Value::String(s) => s.len() > 4096,
-        Value::Object(_) => v.to_string().len() > 4096,
+        Value::Array(a) => a.iter().any(heavy),
+        Value::Object(m) => m.values().any(heavy),
         _ => false,
     }
 }
